@@ -46,10 +46,12 @@ class C09(Check):
     reference_models = ["byte-array file model (this file)", "ref/refext4.py read_file()/check()"]
 
     def budget(self, tier):
-        return {"runs": 600, "wall_s": 85} if tier == "quick" else {"runs": 30000, "wall_s": 1500}
+        return {"runs": 3000, "wall_s": 85} if tier == "quick" else {"runs": 60000, "wall_s": 1500}
 
     def generate(self, rng, tier):
-        cfg = gen_config(rng, small=True, avoid=["mmp", "quota", "project", "orphan_file", "has_journal"])
+        big = rng.chance(0.2)       # (gen_config never picks bigalloc for small filesystems)
+        cfg = gen_config(rng, small=not big, want=["bigalloc", "extent"] if big else None,
+                         avoid=["mmp", "quota", "project", "orphan_file", "has_journal"])
         cfg["features"] = [f for f in cfg["features"] if f not in ("quota", "project")]
         if "ext_attr" not in cfg["features"]:
             cfg["features"] = sorted(set(cfg["features"]) - {"inline_data"})
@@ -134,6 +136,14 @@ class C09(Check):
         return {"cfg": cfg, "types": types, "ops": ops, "data_seed": rng.u64(), "fill": rng.chance(0.2), "initial": rng.choice(["poison", "poison", "zero"])}
 
     def execute(self, spec, wd):
+        o = self.execute_inner(spec, wd)
+        if "cluster" in spec["cfg"]:
+            # bigalloc is its own body of code in the library's allocation and mapping paths
+            for v in o.violations:
+                v.key += "|bigalloc"
+        return o
+
+    def execute_inner(self, spec, wd):
         o = Outcome()
         cfg = spec["cfg"]
         bs = cfg["bs"]
